@@ -307,7 +307,7 @@ struct C16World: World {
   typedef ds::var_opt_sketch<int64_t, talloc<int64_t>> S; typedef ds::var_opt_union<int64_t, talloc<int64_t>> UN;
   const char* name() const override { return "c16"; }
   const char* step_name(int k) const override { return a_step_name(k); }
-  std::string family_of(const Plan&) const override { return "varopt<i64>"; }
+  std::string family_of(const Plan& p) const override { return p.cfg.size() > 2 && p.cfg[2] > 0 ? "varopt<i64>+extreme_draw" : "varopt<i64>"; }
   Plan generate(u64 run_seed, int tier) override { Rng rc(run_seed, "cfg"); static const int ks[] = { 1, 2, 3, 5, 8, 16, 32, 100 };
     Plan p = gen_generic(run_seed, tier, { rc.pick(ks), static_cast<i64>(rc.below(4)), rc.chance(1, 10) ? 1 + static_cast<i64>(rc.below(40)) : 0, static_cast<i64>(rc.below(3)) }, 3, { {A_BATCH, 45}, {A_UNION, 22}, {A_SERDE, 10}, {A_REFUSED, 5}, {A_RESET, 4}, {A_COPY, 6}, {A_QUERY, 8} }, tier ? 4000 : 1500);
     return p; }
@@ -393,7 +393,7 @@ struct C18World: World {
   typedef ds::ebpps_sketch<int64_t, talloc<int64_t>> S;
   const char* name() const override { return "c18"; }
   const char* step_name(int k) const override { return a_step_name(k); }
-  std::string family_of(const Plan&) const override { return "ebpps<i64>"; }
+  std::string family_of(const Plan& p) const override { return p.cfg.size() > 1 && p.cfg[1] > 0 ? "ebpps<i64>+extreme_draw" : "ebpps<i64>"; }   // a violation that needs a 2^-53 draw says so
   Plan generate(u64 run_seed, int tier) override { Rng rc(run_seed, "cfg"); static const int ks[] = { 1, 2, 3, 4, 8, 16, 32 };
     return gen_generic(run_seed, tier, { rc.pick(ks), rc.chance(1, 10) ? 1 + static_cast<i64>(rc.below(60)) : 0, static_cast<i64>(rc.below(3)) }, 3, { {A_BATCH, 45}, {A_MERGE, 25}, {A_SERDE, 8}, {A_REFUSED, 4}, {A_RESET, 3}, {A_COPY, 5}, {A_QUERY, 10} }, tier ? 2000 : 600); }
   struct Node { std::unique_ptr<S> sk; std::set<i64> ids; double cum = 0, maxw = 0; u64 n = 0; bool equal_weights = true; double w0 = 0; uint32_t k = 0; bool may_dup = false; bool merged = false; };   // merged: a non-empty merge is part of this sketch's history
@@ -406,7 +406,7 @@ struct C18World: World {
     const double c_want = std::min<double>(nd.k, nd.cum / nd.maxw), c = s.get_c();
     ctx.require(close(c, c_want, 1e-9), "C18|expected-sample-size-c", "c=" + hexd(c) + " expected min(k, W/wmax)=" + hexd(c_want) + w);
     auto res = s.get_result();
-    const double fl = std::floor(c + 1e-9 * c), ce = std::ceil(c - 1e-9 * c);
+    const double fl = std::floor(c), ce = std::ceil(c);   // literally floor(c) or ceil(c) of the value the sketch reports (exactly c when it is integral)
     // the fingerprint names the operation class after which the size went wrong, so that a recorded finding for one class does not hide another
     ctx.require(static_cast<double>(res.size()) == fl || static_cast<double>(res.size()) == ce, (std::string("C18|result-size-not-floor-or-ceil-of-c|") + (nd.merged ? "after-merge" : "updates-only")).c_str(), std::to_string(res.size()) + " items, c=" + hexd(c) + w);
     std::set<i64> seen; for (i64 id : res) { ctx.require(nd.ids.count(id) != 0, "C18|sample-not-from-input", std::to_string(id) + w); if (!nd.may_dup) ctx.require(seen.insert(id).second, "C18|sample-duplicated", std::to_string(id) + w); }
